@@ -459,7 +459,11 @@ def op_io_setslice(w, a, b, c, d):
     vals = planted_values(w, cgraph(cont), b, d, outs)
     lo = c % (len(io) + 1)
     hi = lo + (c >> 3) % 3
-    io[lo:hi] = vals
+    if (c >> 5) % 4 == 0:
+        # extended slice: the replacement must have exactly as many items as the slice selects
+        io[lo :: 2 + (c >> 7) % 2] = vals
+    else:
+        io[lo:hi] = vals
 
 
 def op_io_delitem(w, a, b, c, d):
